@@ -114,6 +114,7 @@ class IntroWorld(NatWorld):
         self.pick_unavailable = False
         self.introduced: str | None = None
         self.choice_log: list = []
+        self.kind_of: dict[str, str] = {}
         keys = fixtures.rotate(seed, 3 + 4)
         ports = cfg["ports"]
         placement, ta, tc = cfg["placement"], cfg["ta"], cfg["tc"]
@@ -132,6 +133,7 @@ class IntroWorld(NatWorld):
         CHOOSER.world = self
 
     def _mk(self, name: str, key_index: int, kind: str, box, public_ip, lan_ip, port: int) -> None:  # noqa: ANN001
+        self.kind_of[name] = kind
         if kind == "none":
             node = self.add_public_node(name, key_index, public_ip, port)
         else:
@@ -199,7 +201,8 @@ def run_one(cfg: dict, schedule: tuple, seed: int, depth: int) -> dict:
     try:
         # ---- warm-up ------------------------------------------------------------------------------------------
         w.phase = "warmup"
-        order = ["A", "C"] + [f"D{i + 1}" for i in range(cfg["k"] - 1)]
+        cold = cfg["warm"] == "cold"
+        order = ([] if cold else ["A"]) + ["C"] + [f"D{i + 1}" for i in range(cfg["k"] - 1)]
         for name in order:
             w.request_intro(name, B_ADDR, style_of(cfg, name))
             w.flush()
@@ -212,12 +215,15 @@ def run_one(cfg: dict, schedule: tuple, seed: int, depth: int) -> dict:
         w.phase = "main"
         ov_a = w.ov["A"]
         peer_b = next((p for p in ov_a.get_peers() if w.name_of(p) == "B"), None)
-        if peer_b is None or b_knows != set(order):
+        if (peer_b is None and not cold) or b_knows != set(order):
             viol.append(("warmup-failed", f"{cfg}: after the warm-up walks A knows {sorted(w.peers_of('A'))}, B knows "
                          f"{sorted(b_knows)} (expected {order}); drops: {fmt_drops(w, 0)}"))
             return {"viol": viol, "avail": [], "obs": ("warmup-failed",), "trace": []}
         w.force_pick = cfg["pick"]
-        w.call("A", ov_a.get_new_introduction, peer_b)
+        if cold:        # A's very first contact: it does not know its WAN address yet and has no NAT mapping
+            w.request_intro("A", B_ADDR, style_of(cfg, "A"))
+        else:
+            w.call("A", ov_a.get_new_introduction, peer_b)
         assert len(w.inflight) == 1, w.inflight
         w.deliver(0)                              # the request reaches B; B chooses, answers, asks for a puncture
         x = w.introduced
@@ -228,6 +234,8 @@ def run_one(cfg: dict, schedule: tuple, seed: int, depth: int) -> dict:
                         "skipped": True}
             viol.append(("vacuous:no-introduction", f"{cfg}: B knows {sorted(b_knows)} but made no choice when answering A"))
             return {"viol": viol, "avail": [], "obs": ("no-introduction",), "trace": []}
+        if x == "A":     # not "a third peer": nothing the statement speaks about (seen only on mutated trees)
+            return {"viol": [], "avail": [], "obs": ("introduced-the-requester",), "trace": [], "skipped": True}
         if not any(r["kind"] == "puncture-request" and r["to"] == x for r in b_sent):
             viol.append(("no-puncture-request", f"{cfg}: B introduced {x} to A but sent no puncture request to {x}; B sent "
                          f"{[(r['kind'], r['dst'], r['fate']) for r in b_sent]}"))
@@ -264,7 +272,7 @@ def run_one(cfg: dict, schedule: tuple, seed: int, depth: int) -> dict:
 
         first = connected()
         placement = "same-box" if (cfg["placement"] == "same" and x == "C") else "different"
-        tx = cfg["tc"] if x == "C" else EXTRA_KINDS[int(x[1]) - 1]
+        tx = w.kind_of[x]
         trail = (f"{cfg} introduced={x}({tx}) schedule={list(schedule)}: A walked to {walked}; "
                  f"main-round deliveries: {fmt_deliveries(main_deliv)}; drops: {fmt_drops(w, n_warm)}; "
                  f"A.wan={tuple(ov_a.my_estimated_wan)} {x}.wan={tuple(w.ov[x].my_estimated_wan)}")
@@ -299,8 +307,9 @@ def run_one(cfg: dict, schedule: tuple, seed: int, depth: int) -> dict:
                          f"{''.join(traceback.format_exception(exc))[-800:] if exc else ''}; {trail}"))
         trace = [(r["kind"], r["from"], r["to"], r["outcome"]) for r in main_deliv]
         reasons = tuple(sorted({r["reason"] for r in w.drop_log if r["phase"] == "main"}))
+        learnt["A"] = tuple(ov_a.my_estimated_wan) == w.public_address_of("A")
         obs = (cfg["placement"], cfg["ta"], tx, cfg["style"], punctured_first, first, second, reasons,
-               all(learnt.values()))
+               all(learnt.values()), cfg["warm"], cfg["ports"])
         return {"viol": viol, "avail": avail, "obs": obs, "trace": trace, "introduced": x,
                 "offered": len(w.offered or ())}
     finally:
@@ -319,19 +328,29 @@ def fmt_drops(w: NatWorld, n_from: int) -> list:
 # --- enumeration --------------------------------------------------------------------------------------------------
 
 def base_configs(thorough: bool) -> list[dict]:
+    """
+    placement x NAT kinds x style x candidates x forced choice x port mode x warm/cold.
+
+    When the forced choice is one of the extra candidates D_i, C is a bystander: its NAT kind cannot matter, so only
+    tc = "port" is kept for those (all four kinds of A, and the three shared boxes).
+    """
+    pairs = [("diff", ta, tc) for ta in NAT_KINDS for tc in NAT_KINDS]       # (none, none) = both public
+    pairs += [("same", t, t) for t in NAT_KINDS if t != "none"]
+    if thorough:
+        groups = [(st, ports, warm, (1, 2, 3, 4, 5)) for st in ("old", "new")
+                  for ports, warm in (("shift", "warm"), ("shift", "cold"), ("keep", "warm"))]
+        groups += [(st, "shift", warm, (1, 2)) for st in ("A-new", "X-new") for warm in ("warm", "cold")]
+    else:
+        groups = [(st, "shift", warm, (1, 3)) for st in ("old", "new") for warm in ("warm", "cold")]
     out = []
-    placements = [("diff", ta, tc) for ta in NAT_KINDS for tc in NAT_KINDS]       # (none, none) = both public
-    placements += [("same", t, t) for t in NAT_KINDS if t != "none"]
-    styles = ["old", "new", "A-new", "X-new"] if thorough else ["old", "new"]
-    ks = [1, 2, 3, 4, 5] if thorough else [1, 3]
-    port_modes = ["shift", "keep"] if thorough else ["shift"]
-    for placement, ta, tc in placements:
-        for style in styles:
+    for style, ports, warm, ks in groups:
+        for placement, ta, tc in pairs:
             for k in ks:
                 for pick in range(k):
-                    for ports in port_modes:
-                        out.append({"placement": placement, "ta": ta, "tc": tc, "style": style, "k": k, "pick": pick,
-                                    "ports": ports})
+                    if pick > 0 and placement == "diff" and tc != "port":
+                        continue
+                    out.append({"placement": placement, "ta": ta, "tc": tc, "style": style, "k": k, "pick": pick,
+                                "ports": ports, "warm": warm})
     return out
 
 
@@ -362,7 +381,7 @@ def explore_configs(chunk: list) -> list:
                     viols[key] = (what, {"cfg": cfg, "schedule": list(sched), "seed": _SEED, "depth": _DEPTH})
             if r.get("introduced"):
                 introduced.add(r["introduced"])
-                sigs.add(core.digest((sorted(cfg.items()), r["trace"])))
+                sigs.add(core.digest((r["obs"][:4], cfg["ports"], cfg["warm"], r["trace"])))
                 classes.add(r["obs"])
             if sample is None:
                 sample = {"cfg": cfg, "schedule": list(sched), "introduced": r.get("introduced"),
@@ -377,14 +396,21 @@ def explore_configs(chunk: list) -> list:
 
 
 def _cfg_rank(cfg: dict) -> tuple:
-    return (cfg["k"], cfg["style"] != "old", cfg["ports"] != "shift", cfg["placement"], cfg["ta"], cfg["tc"], cfg["pick"])
+    return (cfg["k"], cfg["warm"] != "warm", cfg["style"] != "old", cfg["ports"] != "shift", cfg["placement"],
+            cfg["ta"], cfg["tc"], cfg["pick"])
 
 
 def run(ctx: core.Ctx) -> core.Report:
     global _SEED, _DEPTH
     _SEED = ctx.seed % 12
-    _DEPTH = 6 if ctx.thorough else 4
+    _DEPTH = STEP_CAP if ctx.thorough else 4      # thorough: every delivery order of the whole round
     cfgs = base_configs(ctx.thorough)
+    # replay determinism: the same (configuration, schedule) must give the same observation log in a fresh world
+    for cfg, sched in ((cfgs[0], ()), (cfgs[-1], (1, 1)), (cfgs[len(cfgs) // 2], (0, 1, 1))):
+        r1, r2 = (run_one(cfg, sched, _SEED, 4) for _ in range(2))
+        if (r1["obs"], r1["trace"], r1["avail"], r1["viol"]) != (r2["obs"], r2["trace"], r2["avail"], r2["viol"]):
+            core.eprint(f"C13: replay of {cfg} {sched} is not deterministic:\n{r1}\n{r2}")
+            sys.exit(2)
     res = core.pmap(explore_configs, cfgs, ctx.jobs, chunk=1 if ctx.thorough else 2)
     res.sort(key=lambda r: _cfg_rank(r["cfg"]))
     execs = sum(r["execs"] for r in res)
@@ -411,14 +437,16 @@ def run(ctx: core.Ctx) -> core.Report:
         "distinct_nontrivial": len(sigs),
         "rule": "one evaluation = warm-up + one introduction round of real Community overlays on a NAT-enforcing network "
                 "under one configuration (placement x NAT kind of A x NAT kind of C x message style x number of "
-                "candidates at B x forced choice x port mode) and one delivery schedule (stateless DFS: each of the "
-                "first `depth` deliveries after B answered ranges over every datagram in flight, FIFO afterwards; the "
-                "empty schedule is FIFO); non-trivial = B introduced a peer; distinct = distinct (configuration, "
-                "sequence of (message kind, sender, receiver, NAT verdict) of the round) - measured as a set of digests",
+                "candidates at B x forced choice x port mode x warm/cold requester) and one delivery schedule (stateless "
+                "DFS: each of the first `schedule_depth` deliveries after B answered ranges over every datagram in "
+                "flight, FIFO afterwards; the empty schedule is FIFO); non-trivial = B introduced a third peer; "
+                "distinct = distinct (placement, NAT kind of A, NAT kind of the introduced peer, style, port mode, "
+                "warm/cold, sequence of (message kind, sender, receiver, NAT verdict) of the round), i.e. executions "
+                "that differ only in bystander candidates are counted once - measured as a set of digests",
         "samples": [r["sample"] for r in res[:2] + res[-2:] if r["sample"]],
         "exhaustive": skipped == 0,
         "configurations": len(cfgs),
-        "schedule_depth": _DEPTH,
+        "schedule_depth": _DEPTH if _DEPTH < STEP_CAP else "unbounded (every delivery order of the whole round)",
         "max_schedules_per_configuration": max(r["execs"] for r in res),
         "skipped_choice_not_offered": skipped,
         "distinct_outcome_classes": len(classes),
@@ -429,7 +457,7 @@ def run(ctx: core.Ctx) -> core.Report:
         "bounds": {"nat_kinds": list(NAT_KINDS), "placements": ["different boxes (4x4, none/none = both public)",
                                                                "same box (3 cone kinds)"],
                    "styles": sorted({c["style"] for c in cfgs}), "candidates": sorted({c["k"] for c in cfgs}),
-                   "port_modes": sorted({c["ports"] for c in cfgs})},
+                   "port_modes": sorted({c["ports"] for c in cfgs}), "requester": sorted({c["warm"] for c in cfgs})},
     }
     return core.Report(LEVEL, cov, violations, [
         "NAT model: endpoint-independent mapping, filtering none/full-cone/address-restricted/port-restricted, LAN "
